@@ -8,6 +8,7 @@
   of any length, any number of securities, every order `σ` in which the map of securities and `ρ`
   in which a security's year map is walked, and any function `yearOf` from settlement days to years.
 -/
+import AcbModel.Generated.AppReports
 import AcbModel.Lemmas.Gains
 namespace Acb
 open Acb.Gains Acb.Costs
@@ -135,6 +136,14 @@ theorem C06_display_only (g : CG) :
   · simp [footer, shownSigned_full]
   · simp [footer, shownSigned_full, shownSigned_cents, List.map_map, Function.comp_def]
   · simp [aggTable, shownSigned_full, shownSigned_cents, List.map_map, Function.comp_def]
+
+/-- **C06 (what the source says, re-read by the translator on every run).**  The display
+    rounding is `round_dp_with_strategy(2, MidpointAwayFromZero)` printed with `{:.2}`, and gains are
+    attributed to the year of the settlement date.  A change of any of these in the source stops
+    this theorem from compiling. -/
+theorem C06_source_facts :
+    Gen.displayDp = 2 ∧ Gen.displayRounding = "MidpointAwayFromZero" ∧ Gen.displayFormat = "{:.2}" ∧
+    Gen.gainsYearField = "settlement_date" := by decide
 
 end Acb
 
